@@ -86,16 +86,14 @@ func raceScenario(rng *rand.Rand, sc Scenario) {
 	banAddr := func(r *rand.Rand) string {
 		return []string{"203.0.113.7:8333", "203.0.113.8:8333", "[2001:db8::7]:8333"}[r.Intn(3)]
 	}
-	// (every such call is a write transaction on the database the header stores use as well: paced, so that
-	// the sync itself is not starved)
+	// (every such call is a write transaction on the database the header stores use as well: a few dozen per
+	// second, so that the sync itself is not slowed down; the lookup right after the ban finds it lapsed and
+	// reaps it while the lookups of the user above are under way)
 	user(func(r *rand.Rand) {
-		cs.BanPeer(banAddr(r), banman.ExceededBanThreshold)
-		time.Sleep(4 * time.Millisecond)
-	})
-	user(func(r *rand.Rand) {
-		cs.IsBanned(banAddr(r))
-		cs.IsBanned(banAddr(r))
-		time.Sleep(2 * time.Millisecond)
+		a := banAddr(r)
+		cs.BanPeer(a, banman.ExceededBanThreshold)
+		cs.IsBanned(a)
+		time.Sleep(15 * time.Millisecond)
 	})
 	user(func(r *rand.Rand) {
 		b := pick(r)
